@@ -197,7 +197,9 @@ namespace cnl {
             template<typename Rhs>
             [[nodiscard]] constexpr auto operator()(Rhs const& rhs) const
             {
-                return has_most_negative_number<Rhs>::value && rhs < -std::numeric_limits<Rhs>::max();
+                // -rhs has the promoted type; it overflows only if that type has a most negative number
+                using result = typename operator_overflow_traits<minus_op, Rhs>::result;
+                return has_most_negative_number<result>::value && rhs < -std::numeric_limits<result>::max();
             }
         };
 
@@ -206,7 +208,9 @@ namespace cnl {
             template<typename Rhs>
             [[nodiscard]] constexpr auto operator()(Rhs const& rhs) const
             {
-                return !numbers::signedness_v<Rhs> && rhs;
+                // narrow unsigned operands are promoted to int, which holds their negation
+                using result = typename operator_overflow_traits<minus_op, Rhs>::result;
+                return !numbers::signedness_v<result> && rhs;
             }
         };
 #if defined(_MSC_VER)
